@@ -138,6 +138,12 @@ def _evaluate(part, case):
         return "harness", "RecursionError in oracle"
     except Exception as e:  # noqa: BLE001 - anything else is ours
         return "harness", "".join(traceback.format_exception(e))
+    except BaseException as e:
+        # a planted KeyboardInterrupt/SystemExit that escaped: ours too
+        if getattr(e, "_verif_planted", False):
+            return "harness", "planted %s escaped the oracle" % type(
+                e).__name__
+        raise
     if m is None:
         return "ok", None
     if not isinstance(m, Mismatch):
@@ -404,7 +410,16 @@ def main(modname, argv=None):
     results = []
     if tasks:
         with ctx.Pool(min(NCPU, len(tasks))) as pool:
-            results = pool.map(_shard_worker, tasks, chunksize=1)
+            # (a worker that dies would make a plain map() wait forever)
+            limit = 1500 if ns.tier == "quick" else 6 * 3600
+            try:
+                results = pool.map_async(_shard_worker, tasks,
+                                         chunksize=1).get(timeout=limit)
+            except multiprocessing.TimeoutError:
+                print("HARNESS-ERROR: shard workers did not finish within "
+                      "%d s" % limit)
+                pool.terminate()
+                return 2
     buckets = {}
     per_part = {}
     for r in results:
@@ -459,7 +474,12 @@ def main(modname, argv=None):
             sargs.append((modname, pname, v["shard"], per, seed, ns.tier, b,
                           budget))
         with ctx.Pool(min(NCPU, len(sargs))) as pool:
-            shrunk = pool.map(_shrink_worker, sargs, chunksize=1)
+            try:
+                shrunk = pool.map_async(_shrink_worker, sargs,
+                                        chunksize=1).get(timeout=budget * 4)
+            except multiprocessing.TimeoutError:
+                pool.terminate()
+                shrunk = [{"case": None, "detail": None} for _ in sargs]
         for ((pname, b), v), best in zip(todo, shrunk):
             case = best["case"] if best["case"] is not None else v["first"]
             detail = best["detail"] if best["case"] is not None \
